@@ -691,12 +691,53 @@ def binder(args, mode):
     return ' '.join(out)
 
 
+def stmt_skeleton(body):
+    """statement kinds with nesting; docstrings dropped; assignment targets and the test / iterator / raised or
+    returned expression text kept, so that an added branch, a re-bound name or a changed guard is visible"""
+    out = []
+    for st in body:
+        if isinstance(st, ast.Expr) and isinstance(st.value, ast.Constant) and isinstance(st.value.value, str):
+            continue
+        if isinstance(st, ast.Assign):
+            out.append('Assign[' + ','.join(ast.unparse(t) for t in st.targets) + ']')
+        elif isinstance(st, ast.AugAssign):
+            out.append('AugAssign[' + ast.unparse(st.target) + ']')
+        elif isinstance(st, ast.If):
+            s_ = 'If<' + ast.unparse(st.test) + '>(' + stmt_skeleton(st.body) + ')'
+            if st.orelse:
+                s_ += 'Else(' + stmt_skeleton(st.orelse) + ')'
+            out.append(s_)
+        elif isinstance(st, ast.For):
+            out.append('For<' + ast.unparse(st.target) + ' in ' + ast.unparse(st.iter) + '>(' + stmt_skeleton(st.body) + ')')
+        elif isinstance(st, ast.While):
+            out.append('While<' + ast.unparse(st.test) + '>(' + stmt_skeleton(st.body) + ')')
+        elif isinstance(st, ast.Return):
+            out.append('Return<' + (ast.unparse(st.value) if st.value is not None else '') + '>')
+        elif isinstance(st, ast.Raise):
+            out.append('Raise<' + (ast.unparse(st.exc.func) if isinstance(st.exc, ast.Call) else 'exc') + '>')
+        elif isinstance(st, ast.Expr):
+            out.append('Expr<' + ast.unparse(st.value) + '>')
+        else:
+            out.append(type(st).__name__)
+    return ';'.join(out)
+
+
 def translate_kernel(k, trees):
     path = os.path.join(REPO, k['file'])
     if path not in trees:
         with open(path) as f:
             trees[path] = ast.parse(f.read(), filename=path)
     func = find_func(trees[path], k['func'])
+    if k['select'] == 'shape':
+        # structural pin (C07): the statement skeleton of the function (statement kinds, nesting, assignment
+        # targets, called mutators) must be exactly `expect`; emits the constant `true`.  Fail-closed.
+        skel = stmt_skeleton(func.body)
+        if skel != k.get('expect'):
+            raise TranslateError(f"kernel {k['name']}: statement skeleton of {k['func']} is {skel!r}, "
+                                 f"kernels pin {k.get('expect')!r}")
+        text = (f"(* {k['file']}:{k['func']} [shape] line {func.lineno}\n   {skel} *)\n"
+                f"Definition {k['name']} : bool := true.")
+        return text, skel
     expr, lineno = select_expr(func, k['select'])
     em = Emitter(k)
     body, typ = em.e(expr)
